@@ -32,6 +32,7 @@ func runC26(c *Ctx) {
 	c.rule(P, "fit", "stop test involves the next entry's size or leaves a margin >= one maximal entry + trailer", 2)
 	c.rule(P, "toosmall", "NFS3ERR_TOOSMALL is a reachable status of READDIR and READDIRPLUS", 2)
 	c.rule(P, "floor", "the client's count/maxcount is not silently raised to a floor", 0)
+	c.rule(P, "entry-size", "the stop test's estimate (Len + K + pad4(name)) covers the bytes the loop appends per entry plus the list trailer, minus the status word; sizes from the reply trace", 2)
 	c.rule(P, "cookie", "entry cookie = index+1; resume skips indices < cookie; eof = !stopped-for-size", 6)
 	ent, err := p.entrySet()
 	if err != nil {
@@ -68,6 +69,10 @@ func runC26(c *Ctx) {
 				if hasOrigin(fl.Origins(bo.X), func(o Origin) bool { return strings.Contains(o.Desc, "path.Base") || strings.Contains(o.Desc, "field:NFSNode.path") }) {
 					bound = nil
 				}
+				// the same question asked of the expression itself (size helpers, named constants)
+				if est := evalLin(p, bo.X, nil, 0); est.OK && (est.PadName+est.RawName > 0 || est.OtherLen) {
+					bound = nil
+				}
 			}
 		}
 		key := "proc=" + name
@@ -75,6 +80,7 @@ func runC26(c *Ctx) {
 			c.bad(P, "fit", key, p.pos(h.Pos()), "no size test in the entry loop: the reply is not limited by "+spec.limit)
 		} else if bound == nil {
 			c.ok(P, "fit", key, p.instrPos(stopIf), "the stop test accounts for the entry about to be added")
+			runC26EntrySize(c, h, name, stopIf)
 			// a floor that silently raises a small client limit defeats the limit for those requests
 			if fl := floorConst(boundForFloor); fl >= 0 {
 				c.bad(P, "floor", key, p.instrPos(stopIf), fmt.Sprintf("a %s below %d is raised to %d instead of being refused with NFS3ERR_TOOSMALL: for such requests the encoded reply can exceed the limit the client gave", spec.limit, fl, fl))
@@ -381,6 +387,8 @@ func runC28(c *Ctx) {
 		c.undecided(P, "record-marking", "bindings", "", "ServerOptions.UseRecordMarking / NewServer / Listen not found")
 		return
 	}
+	// speaking the protocol over TCP includes reading record marks that arrive in pieces (shared with C13)
+	runFullReadAs(c, P)
 	// constructions: calls to NewServer in package (non-test)
 	for _, cs := range p.callers[ns] {
 		fn := cs.Caller
@@ -490,6 +498,57 @@ func runC30(c *Ctx) {
 		}
 	}
 	c.verdictIf(floor, P, "floor", "fn=Validate rejects<TLS1.2", p.pos(val.Pos()), "MinVersion < TLS 1.2 is refused", "Validate does not refuse a MinVersion below TLS 1.2 (0x0303)")
+	// exactness: acceptance (return nil) is reachable only across MinVersion == 0 or MinVersion >= TLS 1.2
+	{
+		isMin := func(v ssa.Value) bool {
+			_, f, isLoad := fieldLoad(v)
+			return isLoad && f != nil && f.Name() == "MinVersion"
+		}
+		safe := func(f condFact) bool {
+			// TLS disabled: nothing is listened on with this configuration (BuildConfig returns no config)
+			if _, fld, isLoad := fieldLoad(f.V); isLoad && fld != nil && fld.Name() == "Enabled" && !f.Val {
+				return true
+			}
+			op, l, r, ok := normCmp(f)
+			if !ok {
+				return false
+			}
+			switch op {
+			case "==":
+				k1, c1 := constInt(r)
+				k2, c2 := constInt(l)
+				return isMin(l) && c1 && k1 == 0 || isMin(r) && c2 && k2 == 0
+			case ">=":
+				k, isC := constInt(r)
+				return isMin(l) && isC && k >= 0x0303
+			case ">":
+				k, isC := constInt(r)
+				return isMin(l) && isC && k >= 0x0302
+			}
+			return false
+		}
+		good, n := true, 0
+		var at ssa.Instruction
+		for _, b := range val.Blocks {
+			if b == val.Recover || len(b.Instrs) == 0 {
+				continue
+			}
+			r, ok := b.Instrs[len(b.Instrs)-1].(*ssa.Return)
+			if !ok || len(r.Results) == 0 || !isNilConst(retVal(r, len(r.Results)-1)) {
+				continue
+			}
+			n++
+			if !guardedBy(val, b, safe) {
+				good, at = false, r
+			}
+		}
+		pos := p.pos(val.Pos())
+		if at != nil {
+			pos = p.instrPos(at)
+		}
+		c.verdictIf(good && n > 0, P, "floor", "fn=Validate accepts-only-0-or>=TLS1.2", pos, "every accepting path has established MinVersion == 0 or MinVersion >= TLS 1.2",
+			"Validate can accept a configuration on a path that never established MinVersion == 0 or MinVersion >= TLS 1.2 (the floor test is skipped under some other condition): BuildConfig copies that MinVersion into the listener's tls.Config and TLS 1.0/1.1 handshakes complete")
+	}
 	// BuildConfig: Validate call's error edge returns; dominates the tls.Config alloc
 	var cfgAlloc *ssa.Alloc
 	for _, b := range bc.Blocks {
